@@ -128,6 +128,63 @@ def const_truth(node):
     return None
 
 
+_HOOK = {'enum': None}
+
+
+def _fold_lookup(node):
+    """Fold lookups whose container is spelled out: a field of a namedtuple
+    built right there, an entry of a dict display."""
+    en = _HOOK['enum']
+    if isinstance(node, ast.Attribute) and isinstance(node.ctx, ast.Load) \
+            and isinstance(node.value, ast.Call) and en is not None:
+        ra = en.prog.record_args(en._stack[-1].module, node.value)
+        if ra and node.attr in ra:
+            return ra[node.attr]
+    if isinstance(node, ast.Subscript) and isinstance(node.ctx, ast.Load):
+        v, k = node.value, node.slice
+        if isinstance(v, ast.Call) and en is not None and isinstance(
+                k, ast.Constant) and isinstance(k.value, int):
+            ra = en.prog.record_args(en._stack[-1].module, v)
+            if ra and 0 <= k.value < len(ra):
+                return list(ra.values())[k.value]
+        if isinstance(v, ast.Dict) and v.keys and all(
+                isinstance(x, ast.Constant) for x in v.keys):
+            if isinstance(k, ast.Constant):
+                for kk, vv in zip(v.keys, v.values):
+                    if kk.value == k.value and type(kk.value) is type(
+                            k.value):
+                        return vv
+            elif {type(x.value) for x in v.keys} == {bool} and len(
+                    v.keys) == 2:
+                # {True: a, False: b}[cond]
+                d = {x.value: y for x, y in zip(v.keys, v.values)}
+                return ast.IfExp(test=k, body=d[True], orelse=d[False])
+    if isinstance(node, ast.Call) and isinstance(
+            node.func, ast.Attribute) and node.func.attr == 'get' and \
+            isinstance(node.func.value, ast.Dict) and node.func.value.keys \
+            and all(isinstance(x, ast.Constant)
+                    for x in node.func.value.keys) and 1 <= len(
+                        node.args) <= 2 and not node.keywords:
+        d = node.func.value
+        k = node.args[0]
+        dflt = node.args[1] if len(node.args) == 2 else ast.Constant(
+            value=None)
+        if isinstance(k, ast.Constant):
+            for kk, vv in zip(d.keys, d.values):
+                if kk.value == k.value and type(kk.value) is type(k.value):
+                    return vv
+            return dflt
+        if len(d.keys) <= 4:
+            # table.get(key, default): one equality per entry
+            out = dflt
+            for kk, vv in reversed(list(zip(d.keys, d.values))):
+                out = ast.IfExp(test=ast.Compare(
+                    left=k, ops=[ast.Eq()], comparators=[kk]), body=vv,
+                    orelse=out)
+            return out
+    return None
+
+
 class _Subst(ast.NodeTransformer):
     def __init__(self, env, attrs=None):
         self.env = env
@@ -158,10 +215,30 @@ class _Subst(ast.NodeTransformer):
                 t = None
             if t in self.attrs:
                 return copy.deepcopy(self.attrs[t])
-        return self.generic_visit(node)
+        node = self.generic_visit(node)
+        f = _fold_lookup(node)
+        return f if f is not None else node
+
+    def visit_Subscript(self, node):
+        node = self.generic_visit(node)
+        f = _fold_lookup(node)
+        return f if f is not None else node
 
     def visit_Call(self, node):
         node = self.generic_visit(node)
+        f = _fold_lookup(node)
+        if f is not None:
+            return f
+        if isinstance(node.func, ast.IfExp):
+            # (f if c else g)(args) is f(args) if c else g(args)
+            return ast.IfExp(
+                test=node.func.test,
+                body=self.visit_Call(ast.Call(
+                    func=node.func.body, args=node.args,
+                    keywords=node.keywords)),
+                orelse=self.visit_Call(ast.Call(
+                    func=node.func.orelse, args=copy.deepcopy(node.args),
+                    keywords=copy.deepcopy(node.keywords))))
         # f(*(<a>, <b>), **{'k': <v>}) is f(<a>, <b>, k=<v>)
         if any(isinstance(a, ast.Starred) and isinstance(
                 a.value, (ast.Tuple, ast.List)) for a in node.args):
@@ -251,7 +328,7 @@ def _replace_node(root, old, new):
 def subst(expr, env, attrs=None):
     if expr is None:
         return None
-    if not env and not attrs:
+    if not env and not attrs and _HOOK['enum'] is None:
         return expr
     return _Subst(env, attrs).visit(copy.deepcopy(expr))
 
@@ -286,7 +363,7 @@ class Enumerator:
                  max_paths=60000, max_depth=3, loop_iters=(0, 1),
                  handler_paths=True, track_attrs=True, quantifiers=True,
                  comps=False, split_returns=False, unroll=True,
-                 closures=False):
+                 closures=False, self_cls=None):
         self.prog = prog
         self.finfo = finfo
         self.inline = inline
@@ -301,6 +378,7 @@ class Enumerator:
         self.split_returns = split_returns
         self.unroll = unroll
         self.closures = closures
+        self.self_cls = self_cls
         self.defs = {}
         self._n = 0
         self._stack = []
@@ -349,12 +427,21 @@ class Enumerator:
                                                               ast.Del)):
                 local.add(n.id)
         out = {}
-        for nm, lit in self.prog.module_constants(finfo.module).items():
-            if nm not in local:
+        for nm, lit in self.prog.module_constants(
+                finfo.module, names_ok=True).items():
+            if nm not in local and (isinstance(lit, ast.Dict) or not any(
+                    isinstance(x, (ast.Name, ast.Attribute))
+                    for x in ast.walk(lit))):
+                # plain constants, and lookup tables (whose values may name
+                # functions of this module)
                 out[nm] = lit
         if finfo.cls is not None and finfo.params and not finfo.is_static:
             recv = finfo.params[0]
-            for nm, lit in self.prog.class_constants(finfo.cls.qual).items():
+            cq = finfo.cls.qual
+            if self.self_cls and cq in self.prog.mro(self.self_cls):
+                cq = self.self_cls        # the concrete class under analysis
+            for nm, lit in self.prog.class_constants(
+                    cq, names_ok=True).items():
                 out['%s.%s' % (recv, nm)] = lit
                 if finfo.cls.name not in local:
                     out['%s.%s' % (finfo.cls.name, nm)] = lit
@@ -362,11 +449,22 @@ class Enumerator:
         return dict(out)
 
     def run(self):
+        old_hook = _HOOK['enum']
+        old_hint = getattr(self.prog, '_self_cls_hint', None)
+        _HOOK['enum'] = self
+        self.prog._self_cls_hint = self.self_cls
+        try:
+            return self._run()
+        finally:
+            _HOOK['enum'] = old_hook
+            self.prog._self_cls_hint = old_hint
+
+    def _run(self):
+        self._stack = [self.finfo]
         env = self.const_env(self.finfo)
         env.update(self.env0)
         st = State(env=env)
         out = []
-        self._stack = [self.finfo]
         for s, status in self.block(self.finfo.node.body, st, []):
             if status[0] in ('next', 'break', 'continue'):
                 oc = Outcome('end', None, getattr(self.finfo.node,
@@ -421,6 +519,8 @@ class Enumerator:
                     return False
                 if key_of(a) in self.__dict__.get('_notnone', ()):
                     return False
+                if self._is_record_ctor(a):
+                    return False
                 d = self.defs.get(a.id) if isinstance(a, ast.Name) else a
                 if isinstance(d, ast.Call) and isinstance(
                         d.func, ast.Name) and d.func.id in self.NEVER_NONE \
@@ -472,6 +572,32 @@ class Enumerator:
             return
         # primitive: substitute locals (and tracked attributes)
         prim = test if substituted else subst(test, st.env)
+        if self._first_walrus(prim) is not None:
+            for s, v2, rs in self._hoist_walrus(prim, st, [], test):
+                if rs is not None:
+                    yield s, rs
+                else:
+                    yield from self.branch(v2, s, line, True)
+            return
+        special = None
+        if self._next_call(prim) is not None or self._is_record_ctor(prim):
+            special = prim
+        elif isinstance(prim, ast.Compare) and len(prim.ops) == 1:
+            for side in (prim.left, prim.comparators[0]):
+                if self._next_call(side) is not None:
+                    special = side
+        if special is not None:
+            for s, val, rs in self._eval_substituted(special, st, [], test):
+                if rs is not None:
+                    yield s, rs
+                    continue
+                new = val if special is prim else _replace_node(
+                    prim, special, val)
+                if self._is_record_ctor(new):
+                    yield s, True          # a namedtuple with fields
+                else:
+                    yield from self.branch(new, s, line, True)
+            return
         norm = self._truth_equivalent(prim)
         if norm is not None:
             yield from self.branch(norm, st, line, True)
@@ -532,6 +658,14 @@ class Enumerator:
         if isinstance(prim, ast.Compare) and len(prim.ops) == 1:
             a, b, op = prim.left, prim.comparators[0], prim.ops[0]
             name = type(op).__name__
+            # bool(x) == True / is False ...
+            for x, y in ((a, b), (b, a)):
+                if is_builtin(x, 'bool') and isinstance(
+                        y, ast.Constant) and isinstance(y.value, bool) and \
+                        name in ('Eq', 'Is', 'NotEq', 'IsNot'):
+                    pos = y.value == (name in ('Eq', 'Is'))
+                    return x.args[0] if pos else ast.UnaryOp(
+                        op=ast.Not(), operand=x.args[0])
             if isinstance(a, ast.Constant) and is_builtin(b, 'len'):
                 a, b = b, a
                 name = {'Lt': 'Gt', 'Gt': 'Lt', 'LtE': 'GtE',
@@ -628,6 +762,53 @@ class Enumerator:
             if len(e.generators) == 1 and not e.generators[0].is_async:
                 return e
             return None
+        if isinstance(e, ast.Call):
+            g = None
+            try:
+                g = self.prog.callee_of(self._stack[-1], e)
+            except Exception:
+                g = None
+            if g is not None and g not in self._stack:
+                body = [b for b in g.node.body if not (
+                    isinstance(b, ast.Expr) and isinstance(b.value,
+                                                           ast.Constant))]
+                if len(body) == 1 and isinstance(body[0], ast.Return) and \
+                        isinstance(body[0].value, (
+                            ast.GeneratorExp, ast.ListComp, ast.SetComp)) \
+                        and len(body[0].value.generators) == 1:
+                    # a function that just hands back a comprehension
+                    env = self._bind_args(e, g)
+                    if env is not None:
+                        return subst(body[0].value, env)
+                if len(body) == 1 and isinstance(body[0], ast.Expr) and \
+                        isinstance(body[0].value, ast.YieldFrom):
+                    body = self._desugar_yield_from(body[0].value.value,
+                                                    g.node.lineno) or body
+                if len(body) == 1 and isinstance(body[0], ast.For) and \
+                        not body[0].orelse:
+                    lp = body[0]
+                    inner = lp.body
+                    ifs = []
+                    while len(inner) == 1 and isinstance(inner[0], ast.If) \
+                            and not inner[0].orelse:
+                        ifs.append(inner[0].test)
+                        inner = inner[0].body
+                    if len(inner) == 1 and isinstance(inner[0], ast.Expr) \
+                            and isinstance(inner[0].value, ast.Yield) and \
+                            inner[0].value.value is not None:
+                        env = self._bind_args(e, g)
+                        if env is not None:
+                            bound = {n.id for n in ast.walk(lp.target)
+                                     if isinstance(n, ast.Name)}
+                            env = {k: v for k, v in env.items()
+                                   if k not in bound}
+                            return ast.GeneratorExp(
+                                elt=subst(inner[0].value.value, env),
+                                generators=[ast.comprehension(
+                                    target=lp.target,
+                                    iter=subst(lp.iter, env),
+                                    ifs=[subst(c, env) for c in ifs],
+                                    is_async=0)])
         if isinstance(e, ast.Call) and isinstance(e.func, ast.Name) and \
                 not e.keywords:
             if e.func.id in ('set', 'list', 'tuple', 'frozenset', 'sorted',
@@ -922,6 +1103,36 @@ class Enumerator:
                 yield from self._eval_substituted(v.body if t else v.orelse,
                                                   s, handlers, value)
             return
+        if self._first_walrus(v) is not None:
+            for s, v2, rs in self._hoist_walrus(v, st, handlers, value):
+                if rs is not None:
+                    yield s, None, rs
+                else:
+                    yield from self._eval_substituted(v2, s, handlers, value)
+            return
+        nx = self._next_call(v)
+        if nx is not None:
+            yield from self._eval_next(nx[0], nx[1], st, handlers, value)
+            return
+        if self._is_record_ctor(v):
+            # a namedtuple built here keeps its structure: field reads and
+            # unpacking see the arguments
+            for s, c2, rs in self._eval_call_args(v, st, handlers, value):
+                yield s, c2, rs
+            return
+        if isinstance(v, ast.Call) and isinstance(v.func, ast.Name) and \
+                v.func.id in self.PURE_BUILTINS and not v.keywords and \
+                any(has_call(a) for a in v.args) and not self._pure_expr(v) \
+                and self.prog.resolve(self._stack[-1].module, v.func) == \
+                'builtin:' + v.func.id:
+            # bool(f(x)), str(f(x)) ...: the argument is evaluated, the
+            # wrapper keeps its structure
+            for s, c2, rs in self._eval_call_args(v, st, handlers, value):
+                if rs is None:
+                    self._ev(s, 'call', c2, getattr(value, 'lineno', 0),
+                             raw=value)
+                yield s, c2, rs
+            return
         neg = False
         inner = v
         while isinstance(inner, ast.UnaryOp) and isinstance(inner.op,
@@ -1004,6 +1215,178 @@ class Enumerator:
                     found.append((n, callee))
         visit(v, True)
         return found[0] if found else None
+
+    def _first_walrus(self, v):
+        """The first `name := value` evaluated unconditionally in v."""
+        found = []
+
+        def visit(n):
+            if found or isinstance(n, (ast.Lambda, ast.ListComp, ast.SetComp,
+                                       ast.DictComp, ast.GeneratorExp)):
+                return
+            if isinstance(n, ast.BoolOp):
+                visit(n.values[0])          # later operands are conditional
+                return
+            if isinstance(n, ast.IfExp):
+                visit(n.test)
+                return
+            for c in ast.iter_child_nodes(n):
+                visit(c)
+                if found:
+                    return
+            if isinstance(n, ast.NamedExpr):
+                found.append(n)
+        visit(v)
+        return found[0] if found else None
+
+    def _hoist_walrus(self, v, st, handlers, value):
+        """Evaluate the first walrus of v, bind its name, and hand back v
+        with the walrus replaced by the value.  Yields (state, v', raise)."""
+        w = self._first_walrus(v)
+        if w is None:
+            yield st, v, None
+            return
+        for s, val, rs in self._eval_substituted(w.value, st, handlers,
+                                                 value):
+            if rs is not None:
+                yield s, None, rs
+                continue
+            if s is st:
+                s = st.fork()
+            s.env[w.target.id] = val
+            v2 = _replace_node(v, w, val)
+            yield from self._hoist_walrus(v2, s, handlers, value)
+
+    def _is_record_ctor(self, v):
+        return isinstance(v, ast.Call) and self.prog.record_fields(
+            self._stack[-1].module, v.func) is not None
+
+    def _eval_call_args(self, call, st, handlers, value, i=0):
+        """Evaluate the arguments of a constructor call one by one (left
+        to right) so that the call keeps its structure."""
+        slots = [('a', k) for k in range(len(call.args))] + [
+            ('k', k) for k in range(len(call.keywords))]
+        if i >= len(slots):
+            yield st, call, None
+            return
+        kind, k = slots[i]
+        arg = call.args[k] if kind == 'a' else call.keywords[k].value
+        if not has_call(arg) or isinstance(arg, ast.Starred):
+            yield from self._eval_call_args(call, st, handlers, value, i + 1)
+            return
+        for s, val, rs in self._eval_substituted(arg, st, handlers, value):
+            if rs is not None:
+                yield s, None, rs
+                continue
+            c2 = copy.deepcopy(call)
+            if kind == 'a':
+                c2.args[k] = val
+            else:
+                c2.keywords[k].value = val
+            yield from self._eval_call_args(c2, s, handlers, value, i + 1)
+
+    def _next_call(self, v):
+        """(comprehension, default or None) for next(<gen>[, default])."""
+        if isinstance(v, ast.Call) and isinstance(v.func, ast.Name) and \
+                v.func.id == 'next' and 1 <= len(v.args) <= 2 and \
+                not v.keywords and self.prog.resolve(
+                    self._stack[-1].module, v.func) == 'builtin:next':
+            comp = self._as_comprehension(v.args[0])
+            if comp is not None:
+                return comp, (v.args[1] if len(v.args) == 2 else None)
+        return None
+
+    def _eval_next(self, comp, default, st, handlers, value, elts=None,
+                   i=0):
+        """next((E for t in IT if C), default): the first element passing
+        the filter decides.  A literal IT is walked exactly, otherwise zero
+        and one element are explored."""
+        line = getattr(value, 'lineno', 0)
+        g = comp.generators[0]
+        it = g.iter
+        if elts is None:
+            lit = it
+            if isinstance(lit, ast.Name) and isinstance(
+                    self.defs.get(lit.id), (ast.Tuple, ast.List)):
+                lit = self.defs[lit.id]
+            if isinstance(lit, (ast.Tuple, ast.List)) and len(
+                    lit.elts) <= 6 and not any(isinstance(
+                        e, ast.Starred) for e in lit.elts):
+                elts = list(lit.elts)
+
+        def done(s):
+            if default is None:
+                yield s, None, ('raise', ast.Call(func=ast.Name(
+                    id='StopIteration', ctx=ast.Load()), args=[],
+                    keywords=[]), line, self.frame)
+            else:
+                yield from self._eval_substituted(default, s, handlers,
+                                                  value)
+        bound = [n.id for n in ast.walk(g.target) if isinstance(n, ast.Name)]
+
+        def with_elem(s1, elem, after):
+            saved = {b: s1.env.get(b) for b in bound}
+            self._assign_target(g.target, elem, s1, line)
+            cond = None
+            if g.ifs:
+                cond = g.ifs[0] if len(g.ifs) == 1 else ast.BoolOp(
+                    op=ast.And(), values=list(g.ifs))
+
+            def restore(s2):
+                for b, old in saved.items():
+                    if old is None:
+                        s2.env.pop(b, None)
+                    else:
+                        s2.env[b] = old
+            branches = [(s1, True)] if cond is None else self.branch(
+                cond, s1, line)
+            for s2, t in branches:
+                if isinstance(t, tuple):
+                    restore(s2)
+                    yield s2, None, t
+                elif t:
+                    for s3, val, rs in self.eval_value(comp.elt, s2,
+                                                       handlers):
+                        restore(s3)
+                        yield s3, val, rs
+                else:
+                    restore(s2)
+                    yield from after(s2)
+        if elts is not None:
+            if i >= len(elts):
+                yield from done(st)
+                return
+            for s, ev, rs in self.eval_value(elts[i], st, handlers):
+                if rs is not None:
+                    yield s, None, rs
+                    continue
+                if s is st:
+                    s = st.fork()
+                yield from with_elem(
+                    s, ev, lambda s2: self._eval_next(
+                        comp, default, s2, handlers, value, elts, i + 1))
+            return
+        s0 = st.fork()
+        if has_call(it):
+            for c in reversed([n for n in ast.walk(it)
+                               if isinstance(n, ast.Call)]):
+                self._ev(s0, 'call', c, line)
+                self._invalidate_call(s0, c)
+        self._ev(s0, 'iter', it, line)
+        known = self._iter_truth(it, s0)
+        if known is not True:
+            sz = s0.fork()
+            sz.conds.append(Cond(it, False, line, 'loop', self.frame))
+            yield from done(sz)
+        if known is not False:
+            s1 = s0.fork()
+            s1.conds.append(Cond(it, True, line, 'loop', self.frame))
+            elem = self.fresh(('elem', it), 'e')
+
+            def after(s2):
+                self._ev(s2, 'loopdone', it, line)
+                yield from done(s2)
+            yield from with_elem(s1, elem, after)
 
     def _eval_comp(self, v, st, handlers, value):
         """A one-generator comprehension as the accumulating loop it
@@ -1172,7 +1555,13 @@ class Enumerator:
         if isinstance(target, ast.Name):
             st.env[target.id] = val
         elif isinstance(target, (ast.Tuple, ast.List)):
-            if isinstance(val, (ast.Tuple, ast.List)) and len(val.elts) == \
+            ra = self.prog.record_args(self._stack[-1].module, val) \
+                if isinstance(val, ast.Call) else None
+            if ra is not None and len(ra) == len(target.elts) and not any(
+                    isinstance(t, ast.Starred) for t in target.elts):
+                for t, v in zip(target.elts, ra.values()):
+                    self._assign_target(t, v, st, line)
+            elif isinstance(val, (ast.Tuple, ast.List)) and len(val.elts) == \
                     len(target.elts):
                 for t, v in zip(target.elts, val.elts):
                     self._assign_target(t, v, st, line)
@@ -1243,6 +1632,34 @@ class Enumerator:
             return [loc(y(e)) for e in x.elts]
         return None
 
+    def _catches_value_error(self, trynode):
+        for h in trynode.handlers:
+            for t in self.handler_types(h):
+                if t in ('builtin:ValueError', 'builtin:Exception',
+                         'builtin:BaseException'):
+                    return True
+        return False
+
+    def _unpack_conds(self, target, val, st, line):
+        if not isinstance(target, (ast.Tuple, ast.List)) or any(
+                isinstance(t, ast.Starred) for t in target.elts):
+            return
+        if isinstance(val, (ast.Tuple, ast.List)):
+            if len(val.elts) == len(target.elts):
+                for t, v in zip(target.elts, val.elts):
+                    self._unpack_conds(t, v, st, line)
+            return
+        if isinstance(val, ast.Call) and self._is_record_ctor(val):
+            return
+        c = ast.Compare(
+            left=ast.Call(func=ast.Name(id='len', ctx=ast.Load()),
+                          args=[val], keywords=[]),
+            ops=[ast.Eq()],
+            comparators=[ast.Constant(value=len(target.elts))])
+        ast.fix_missing_locations(c)
+        st.conds.append(Cond(c, True, line, 'test', self.frame))
+        st.facts[key_of(c)] = True
+
     def _route_raise(self, st, status, handlers):
         """A raise status inside try bodies: find a matching handler."""
         yield st, status
@@ -1290,6 +1707,11 @@ class Enumerator:
                     continue
                 if s is st:
                     s = st.fork()
+                if any(self._catches_value_error(h) for h in handlers):
+                    # inside `try ... except ValueError`: unpacking into a
+                    # fixed number of names states the length
+                    for t in targets:
+                        self._unpack_conds(t, v, s, line)
                 for t in targets:
                     self._assign_target(t, v, s, line)
                 yield s, ('next',)
@@ -1542,7 +1964,8 @@ class Enumerator:
                 continue
             for s2, status in self.block(node.body, s, handlers):
                 if status[0] in ('next', 'continue'):
-                    self._ev(s2, 'loopdone', node.test, node.lineno)
+                    self._ev(s2, 'loopdone', node.test, node.lineno,
+                             sym='while')
                     ct = const_truth(node.test)
                     if ct is True:
                         # `while True` left only through break/return
